@@ -110,6 +110,10 @@ def run_check(P, tier, seed, a):
     # ---------------------------------------------------------------- solve
     all_batches = []
     for s in summaries:
+        if s.get('omp_paths'):
+            from . import omp as _omp
+            s['batches'] = s['batches'] + _omp.race_queries(s, jobs[s['idx']], os.path.join(workroot, f'job{s["idx"]}'))
+            s['obligations'] += sum(1 for b in s['batches'] if b.get('kind') == 'race')
         for b in s['batches']:
             b['job'] = s['idx']
             cap = jobs[s['idx']].get('cap_quick' if quick else 'cap_thorough')
@@ -190,6 +194,14 @@ def run_check(P, tier, seed, a):
             if prev:
                 prev[0]['more'] = prev[0].get('more', 0) + 1
                 continue
+        if rec['kind'] == 'race':
+            env = smt.parse_values(rec.get('raw_model') or '') or {}
+            os.makedirs(replay_dir, exist_ok=True)
+            fn = os.path.join(replay_dir, f'{job["entry"]}_{"_".join(str(x) for x in job.get("args", []))}_race{rec["k"]}.vals')
+            driver.write_vals(fn, env, f'property: {pid}\nentry: {job["entry"]}\nargs: {json.dumps(job.get("args", []))}\nrace: {rec["tag"]}\nquery: conflicting iterations (it_r<region>_l<loop> and the __b copy) below')
+            violations.append(dict(key=f'{job.get("cls", job["entry"])}|{rec["tag"].split(":phase")[0]}', what=f'{rec["tag"]}: two unordered accesses (at least one write) to the same element; iterations {env}', job=job,
+                                   replay=fn, confirmed='happens-before relation read off the OpenMP runtime calls in the IR (no barrier / program order between the two accesses)', rec=rec))
+            continue
         if rec['answer'] == 'structural':
             violations.append(dict(key=key, what=f'{rec["tag"]}[{rec["k"]}] is not bit-exact by construction: {b.get("reason")}', job=job,
                                    replay=None, confirmed='structure of the operation tree', rec=rec))
